@@ -135,3 +135,54 @@ MATCH_LINK = REG.add(Contract(
     props=("C02",), note="vermouth attributes_match uninterpreted; list(block.nodes)[0] needs a non-empty residue (precondition)"))
 
 CONTRACTS = [FIND_ATOMS, MATCH_LINK]
+
+
+# ---- veto before effect (static, over the real AST) ------------------------------------------------------------------------
+def lemma_veto_before_effect(ctx):
+    """C02 / C01: a link that does not apply must change nothing ('only atoms and interactions explicitly targeted by an APPLICABLE
+    link may differ').  ApplyLinks.apply_link_between_residues rejects a link by raising MatchError; the obligation, read off the
+    real source on every run: in the top-level statement sequence of the function every statement that can raise MatchError (a
+    `raise MatchError`, or a call of a function that raises it) comes before the first statement that changes the molecule or the
+    processor (attribute / subscript stores, mutator calls, add_edge, update, calls of the processor's own methods)."""
+    import ast
+    from pyvc import source
+    from pyvc.types import Unsupported
+    mod = source.load("polyply.src.apply_links")
+    fn = mod.functions.get("ApplyLinks.apply_link_between_residues")
+    if fn is None:
+        raise Unsupported("ApplyLinks.apply_link_between_residues not found (stale contract)")
+    raisers = {"match_link_and_residue_atoms"}
+    mutators = {"append", "extend", "remove", "pop", "update", "insert", "add", "clear", "sort", "reverse", "setdefault",
+                "add_edge", "add_node", "remove_node", "remove_nodes_from", "add_interaction", "remove_interaction"}
+
+    def can_veto(st):
+        for n in ast.walk(st):
+            if isinstance(n, ast.Raise) and n.exc is not None:
+                e = n.exc.func if isinstance(n.exc, ast.Call) else n.exc
+                if isinstance(e, ast.Name) and e.id == "MatchError":
+                    return True
+            if isinstance(n, ast.Call) and isinstance(n.func, ast.Name) and n.func.id in raisers:
+                return True
+        return False
+
+    def has_effect(st):
+        for n in ast.walk(st):
+            if isinstance(n, (ast.Assign, ast.AugAssign, ast.Delete)):
+                tg = n.targets if isinstance(n, (ast.Assign, ast.Delete)) else [n.target]
+                if any(isinstance(t, (ast.Subscript, ast.Attribute)) for t in tg):
+                    return True
+            if isinstance(n, ast.Call) and isinstance(n.func, ast.Attribute):
+                if n.func.attr in mutators:
+                    return True
+                if isinstance(n.func.value, ast.Name) and n.func.value.id == "self":
+                    return True          # a method of the processor (e.g. _update_interactions_dict) records the link
+        return False
+    body = [st for st in fn.body if not (isinstance(st, ast.Expr) and isinstance(st.value, ast.Constant))]
+    vetoes = [i for i, st in enumerate(body) if can_veto(st)]
+    effects = [i for i, st in enumerate(body) if has_effect(st)]
+    mixed = [i for i in vetoes if i in effects]
+    return [("the function has statements that can reject the link and statements that apply it", [], z3.BoolVal(bool(vetoes) and bool(effects))),
+            ("no statement both rejects and applies", [], z3.BoolVal(not mixed)),
+            ("every statement that can raise MatchError precedes the first statement that changes the molecule or the processor"
+             + (f"  [last veto: line {body[max(vetoes)].lineno}, first effect: line {body[min(effects)].lineno}]" if vetoes and effects and max(vetoes) > min(effects) else ""),
+             [], z3.BoolVal(bool(vetoes) and bool(effects) and max(vetoes) < min(effects)))]
